@@ -929,12 +929,17 @@ pub fn load_model(path: &std::path::Path) -> Option<Model> {
 /// counter-clockwise outline listed from another start vertex. Returns how many walls were changed.
 pub fn vary_outlines(rng: &mut Rng, m: &mut Model, share: f64) -> usize {
     let mut n = 0;
+    // walls that carry windows keep their start corner: a window's position is given relative to the outline's first
+    // edge by one part of the library (sample points) and relative to the wall origin by another (reveals); the two
+    // agree only for outlines that start at the origin along +X, which is all the converter produces for such walls
+    let with_windows: std::collections::HashSet<Uuid> = m.windows.iter().map(|w| w.wall).collect();
     for w in m.walls.iter_mut() {
+        let has_windows = with_windows.contains(&w.id);
         let p = &mut w.geometry.polygon;
         if p.len() < 3 || !rng.chance(share) {
             continue;
         }
-        if rng.chance(0.25) {
+        if !has_windows && rng.chance(0.25) {
             let k = rng.usize(p.len());
             p.rotate_left(k);
         }
